@@ -877,7 +877,7 @@ FIELD = {"state": ("state", "cstate"), "cr_flag": ("crFlag", "bool"), "hold_stat
          "unsolicited_fsm.write_buf": ("uwriteSrc", "src"), "unsolicited_fsm.write_state": ("uwriteState", "wstate"),
          "unsolicited_fsm.write_state_after": ("uwriteStateAfter", "after"), "unsolicited_fsm.index": ("uindex", "nat")}
 CTYPE = {"CAT_CMD_TYPE_NONE": ".none", "CAT_CMD_TYPE_RUN": ".run", "CAT_CMD_TYPE_READ": ".read", "CAT_CMD_TYPE_WRITE": ".write",
-         "CAT_CMD_TYPE_TEST": ".test"}
+         "CAT_CMD_TYPE_TEST": ".test", "CAT_CMD_TYPE__TOTAL_NUM": ".total"}
 WSTATE = {"CAT_WRITE_STATE_BEFORE": "0", "CAT_WRITE_STATE_MAIN_BUFFER": "1", "CAT_WRITE_STATE_AFTER": "2"}
 SETTERS = [("reset_state", []), ("unsolicited_reset_state", []), ("prepare_search_command", []), ("enable_hold_state", []),
            ("start_flush_io_buffer", ["state_after"]), ("start_flush_io_buffer_raw", ["state_after"]),
@@ -1466,6 +1466,13 @@ def _x(n, env):
             m = {"CAT_VAR_ACCESS_WRITE_ONLY": ".wo", "CAT_VAR_ACCESS_READ_ONLY": ".ro"}
             if acc in m:
                 return "varsAccessible (D.cmdD s.cmd) %s" % m[acc], "bool"
+        if fn == "is_command_disable" and len(e["inner"]) == 3 and strip(e["inner"][1]).get("referencedDecl", {}).get("name") == "self" \
+                and _member_path(e["inner"][2]) == "index":
+            return "disabledByIndex D.groups s.index", "bool"
+        if fn == "cmd_list_next_cmd" and _is_self_call(e, "cmd_list_next_cmd"):
+            t = env.fresh()
+            env.pre.append("let (s, %s) := cmdListNextCmd D s" % t)
+            return t, "bool"
         if fn == "get_cmd_state" and _member_path(e["inner"][2]) == "index":
             t = env.fresh()
             env.pre.append("let (s, %s) := getCmdState D s s.index" % t)
@@ -1496,13 +1503,28 @@ def _x(n, env):
         if op in ("==", "!=") and lm.get("kind") == "CallExpr":
             fn = strip(lm["inner"][0]).get("referencedDecl", {}).get("name")
             z = strip(e["inner"][1])
+            if z.get("kind") == "IntegerLiteral" and z.get("value") == "0" and fn == "print_current_cmd_full_name" and \
+                    len(lm["inner"]) == 3 and strip(lm["inner"][1]).get("referencedDecl", {}).get("name") == "self" and \
+                    strip(lm["inner"][2]).get("kind") == "StringLiteral":
+                t = env.fresh()
+                txt = "[%s]" % ", ".join(str(b) for b in json.loads(strip(lm["inner"][2])["value"]).encode())
+                env.pre.append("let (s, %s) := printCurrentCmdFullName D s %s" % (t, txt))
+                return (t if op == "==" else "!" + t), "bool"
             if z.get("kind") == "IntegerLiteral" and z.get("value") == "0" and fn in ("print_string_to_buf", "print_response_test"):
                 t = env.fresh()
                 if fn == "print_string_to_buf":
                     a = strip(lm["inner"][2])
                     ab = strip(a["inner"][0]) if a.get("kind") == "MemberExpr" else {}
+                    fa = strip(lm["inner"][3]).get("referencedDecl", {}).get("name") if len(lm["inner"]) == 4 else None
+                    farg = "f" if fa == "fsm" else FSMARG.get(fa)
+                    if farg is None:
+                        raise Unrecognised("T12: print_string_to_buf for an unrecognised machine")
                     if _is_self_call(a, "get_new_line_chars"):
                         txt = "(nlStr s)"
+                    elif _cmd_member(a) == "name":
+                        txt = "(D.cmdD s.cmd).name"
+                    elif a.get("kind") == "DeclRefExpr" and a["referencedDecl"]["name"] == "suffix":
+                        txt = "suffix"
                     elif a.get("name") == "description" and ab.get("kind") == "DeclRefExpr" and ab["referencedDecl"]["name"] == "cmd":
                         txt = "(cmd.desc.getD [])"
                     elif a.get("kind") == "StringLiteral":
@@ -1511,7 +1533,7 @@ def _x(n, env):
                         txt = "cmd.name"
                     else:
                         raise Unrecognised("T12: print_string_to_buf of an unrecognised text")
-                    env.pre.append("let (s, %s) := printN D s f %s" % (t, txt))
+                    env.pre.append("let (s, %s) := printN D s %s %s" % (t, farg, txt))
                 else:
                     env.pre.append("let (s, %s) := printResponseTest D s f" % t)
                 # both return 0 on success; the model's functions return "succeeded"
@@ -1588,6 +1610,23 @@ def _cps(sts, k, ind):
         if set(arms) != {".cmd", ".uns"}:
             raise Unrecognised("T12: switch (fsm) without both arms")
         return "(match f with\n%s| .cmd => %s\n%s| .uns => %s)" % (ind, arms[".cmd"], ind, arms[".uns"])
+    if kind == "SwitchStmt" and _member_path(st["inner"][0]) == "cmd_type":
+        if [x for x in rest if not is_noise(x)] or k != "s":
+            raise Unrecognised("T20: statements after switch (self->cmd_type)")
+        arms, has_default = {}, False
+        for labels, stmts in switch_arms(st, None, None):
+            for l in labels:
+                if l == "default":
+                    has_default = True      # values outside the enumeration: the model's type has none
+                    continue
+                if l not in CTYPE:
+                    raise Unrecognised("T20: unknown request type label %s" % l)
+                if CTYPE[l] in arms:
+                    raise Unrecognised("T20: duplicate label")
+                arms[CTYPE[l]] = _cps(stmts, "s", ind + "    ")
+        if set(arms) != set(CTYPE.values()):
+            raise Unrecognised("T20: switch (self->cmd_type) does not name every request type")
+        return "(match s.cmdType with\n" + "\n".join("%s| %s => %s" % (ind, c, arms[c]) for c in CTYPE.values()) + ")"
     if kind == "SwitchStmt":
         if _member_path(st["inner"][0]) != "current_char":
             raise Unrecognised("T11: switch on something other than current_char")
@@ -1675,6 +1714,14 @@ def _cps(sts, k, ind):
             c, _ = _x(rhs["inner"][0], env)
             a, b = _rhs(rhs["inner"][1], "cstate", [], {}), _rhs(rhs["inner"][2], "cstate", [], {})
             return "(let s : St := { s with state := if %s then %s else %s };\n%s%s)" % (c, a, b, ind, _cps(rest, k, ind))
+        if path in FIELD and rhs.get("kind") == "ConditionalOperator":
+            f, kd = FIELD[path]
+            env = _Env()
+            c, _ = _x(rhs["inner"][0], env)
+            if env.pre:
+                raise Unrecognised("T20: side effect in the condition of ?:")
+            a, b = _rhs(rhs["inner"][1], kd, [], {}), _rhs(rhs["inner"][2], kd, [], {})
+            return "(let s : St := { s with %s := if %s then %s else %s };\n%s%s)" % (f, c, a, b, ind, _cps(rest, k, ind))
         if path in FIELD:
             f, kd = FIELD[path]
             return "(let s : St := { s with %s := %s };\n%s%s)" % (f, _rhs(rhs, kd, [], {}), ind, _cps(rest, k, ind))
@@ -2451,6 +2498,155 @@ def t18(ast):
             "      else ({ s with state := .writeLoop }, Gen.CAT_STATUS_BUSY)"]
 
 
+# ------------------------------------------------------------------------------------ T19
+# the four handler loops around the T3 tables: which handler is called, with which arguments, and that the
+# function returns CAT_STATUS_BUSY after the switch.  Recognisers: the call expression must be exactly the
+# expected one (handler, command pointer, buffer, length/position arguments, capacity), the Lean text is fixed.
+
+def _unc(n):
+    n = strip(n)
+    while n.get("kind") in ("CStyleCastExpr",) and n.get("inner"):
+        n = strip(n["inner"][0])
+    return n
+
+
+def _addr_of(n, path):
+    n = _unc(n)
+    return n.get("kind") == "UnaryOperator" and n.get("opcode") == "&" and _member_path(n["inner"][0]) == path
+
+
+def _loop_shape(ast, name):
+    """body = switch (<call>) {...}  return CAT_STATUS_BUSY;  -> the call expression"""
+    _, body = find_fn(ast, name)
+    sts = [x for x in body.get("inner", []) if not is_noise(x)]
+    if len(sts) != 2 or sts[0].get("kind") != "SwitchStmt" or sts[1].get("kind") != "ReturnStmt" or \
+            strip(sts[1]["inner"][0]).get("referencedDecl", {}).get("name") != "CAT_STATUS_BUSY":
+        raise Unrecognised("T19: %s is not `switch (handler call) {...} return CAT_STATUS_BUSY;`" % name)
+    return strip(sts[0]["inner"][0])
+
+
+def _cmd_handler_call(call, handler):
+    """self->cmd-><handler>(self->cmd, ...) -> the remaining arguments"""
+    if call.get("kind") != "CallExpr":
+        return None
+    cal = strip(call["inner"][0])
+    if not (cal.get("kind") == "MemberExpr" and cal.get("name") == handler and _member_path(cal["inner"][0]) == "cmd"):
+        return None
+    if len(call["inner"]) < 2 or _member_path(call["inner"][1]) != "cmd":
+        return None
+    return call["inner"][2:]
+
+
+def _by_fsm_helper(ast, name, handler):
+    """cmd = get_command_by_fsm(self, fsm); switch (fsm) { case ATCMD: return cmd-><handler>(cmd, buf, &pos, size); case UNSOLICITED: ... }"""
+    _, body = find_fn(ast, name)
+    sts = [x for x in body.get("inner", []) if not is_noise(x)]
+    ok = len(sts) == 3 and sts[0].get("kind") == "DeclStmt" and sts[1].get("kind") == "SwitchStmt" and sts[2].get("kind") == "ReturnStmt"
+    if ok:
+        d = sts[0]["inner"][0]
+        ok = d.get("name") == "cmd" and d.get("inner") and _is_call_self_fsm(d["inner"][-1], "get_command_by_fsm") and \
+            strip(sts[1]["inner"][0]).get("referencedDecl", {}).get("name") == "fsm"
+    seen = set()
+    if ok:
+        want = {"CAT_FSM_TYPE_ATCMD": ("get_atcmd_buf", "position", "get_atcmd_buf_size"),
+                "CAT_FSM_TYPE_UNSOLICITED": ("get_unsolicited_buf", "unsolicited_fsm.position", "get_unsolicited_buf_size")}
+        for labels, stmts in switch_arms(sts[1], None, None):
+            b = [x for x in stmts if not is_noise(x) and x.get("kind") != "BreakStmt"]
+            for l in labels:
+                if l == "default":
+                    ok = ok and not b
+                    continue
+                if l not in want or len(b) != 1 or b[0].get("kind") != "ReturnStmt":
+                    ok = False
+                    continue
+                call = strip(b[0]["inner"][0])
+                cal = strip(call["inner"][0]) if call.get("kind") == "CallExpr" else {}
+                buf, pos, size = want[l]
+                ok = ok and cal.get("kind") == "MemberExpr" and cal.get("name") == handler and \
+                    strip(cal["inner"][0]).get("referencedDecl", {}).get("name") == "cmd" and len(call["inner"]) == 5 and \
+                    strip(call["inner"][1]).get("referencedDecl", {}).get("name") == "cmd" and _is_self_call(_unc(call["inner"][2]), buf) and \
+                    _addr_of(call["inner"][3], pos) and _is_self_call(call["inner"][4], size)
+                seen.add(l)
+        ok = ok and seen == set(want)
+    if not ok:
+        raise Unrecognised("T19: %s has an unrecognised shape" % name)
+
+
+def t19(ast):
+    out = []
+    call = _loop_shape(ast, "process_write_loop")
+    a = _cmd_handler_call(call, "write")
+    if a is None or len(a) != 3 or not _is_self_call(_unc(a[0]), "get_atcmd_buf") or _member_path(a[1]) != "length" or _member_path(a[2]) != "index":
+        raise Unrecognised("T19: the write handler is not called as write(cmd, command buffer, length, index)")
+    out.append("/-- `process_write_loop` of src/cat.c: `self->cmd->write(self->cmd, get_atcmd_buf(self), self->length, self->index)`, then the\n"
+               "calls of the return-code table `Gen.process_write_loop` (T3).  The handler event carries what the handler is given: the first\n"
+               "`length` bytes of the command buffer, whether a NUL follows them, `length` and `index`. -/\n"
+               "def process_write_loop_fn (D : Desc) (s : St) (i : SvcIn) : St × Int :=\n"
+               "  let s : St := s.chkUb s.cmd.isSome;                                          -- ghost: self->cmd is dereferenced\n"
+               "  let data := (region D s .cmd 0).take s.length;\n"
+               "  let z := (getB D s .cmd s.length == 0 && s.length < D.cmdCap);\n"
+               "  let s : St := s.emit (.handler .cmd .write (s.cmd.getD 0) data z s.length s.index i.hc.ret);\n"
+               "  let s : St := applyNested D .cmd false s i.hc.acts;                          -- API calls made by the handler\n"
+               "  (doCalls D .cmd s (Gen.process_write_loop i.hc.ret), Gen.CAT_STATUS_BUSY)")
+    call = _loop_shape(ast, "process_run_loop")
+    a = _cmd_handler_call(call, "run")
+    if a is None or len(a) != 0:
+        raise Unrecognised("T19: the run handler is not called as run(cmd)")
+    out.append("/-- `process_run_loop` of src/cat.c: `self->cmd->run(self->cmd)`, then the calls of `Gen.process_run_loop` (T3) -/\n"
+               "def process_run_loop_fn (D : Desc) (s : St) (i : SvcIn) : St × Int :=\n"
+               "  let s : St := s.chkUb s.cmd.isSome;\n"
+               "  let s : St := s.emit (.handler .cmd .run (s.cmd.getD 0) [] true 0 0 i.hc.ret);\n"
+               "  let s : St := applyNested D .cmd false s i.hc.acts;\n"
+               "  (doCalls D .cmd s (Gen.process_run_loop i.hc.ret), Gen.CAT_STATUS_BUSY)")
+    for kind, helper, loop in (("read", "call_cmd_read_by_fsm", "process_read_loop"), ("test", "call_cmd_test_by_fsm", "process_test_loop")):
+        _by_fsm_helper(ast, helper, kind)
+        call = _loop_shape(ast, loop)
+        if not _is_call_self_fsm(call, helper):
+            raise Unrecognised("T19: %s does not switch on %s(self, fsm)" % (loop, helper))
+        out.append("/-- `%s` of src/cat.c with `%s`: the %s handler of the machine's command is given that machine's buffer,\n"
+                   "the address of its position and its capacity; then the calls of `Gen.%s` (T3) -/\n"
+                   "def %s_fn (D : Desc) (s : St) (f : Fsm) (i : SvcIn) : St × Int :=\n"
+                   "  let s : St := s.chkUb (s.cmdOf f).isSome;                                     -- ghost: get_command_by_fsm's result is dereferenced\n"
+                   "  let ans := match f with | .cmd => i.hc | .uns => i.hu;\n"
+                   "  let c := cstr D s f;\n"
+                   "  let s : St := s.emit (.handler f .%s ((s.cmdOf f).getD 0) c.1 c.2 (s.pos f) (D.capOf f) ans.ret);\n"
+                   "  let s : St := applyNested D f true s ans.acts;                                -- API calls and buffer edits made by the handler\n"
+                   "  (doCalls D f s (Gen.%s ans.ret f), Gen.CAT_STATUS_BUSY)" % (loop, helper, kind, loop, loop, kind, loop))
+    return out
+
+
+# ------------------------------------------------------------------------------------ T20
+# the command list: `cmd_list_next_cmd`, `print_current_cmd_full_name`, `print_cmd_list` through the statement translator
+# (switch on `self->cmd_type`, `cond ? a : b` into the request type, the availability conditions, the printer calls).
+
+def t20(ast):
+    out = []
+    _, body = find_fn(ast, "cmd_list_next_cmd")
+    sts = [x for x in body.get("inner", []) if not is_noise(x)]
+    RETMAP[0] = {"0": "false", "1": "true"}
+    try:
+        out.append("/-- `cmd_list_next_cmd` of src/cat.c -/\ndef cmd_list_next_cmd (D : Desc) (s : St) : St × Bool :=\n  %s" % _cps(sts, "s", "    "))
+    finally:
+        RETMAP[0] = None
+    _, body = find_fn(ast, "print_current_cmd_full_name")
+    sts = [x for x in body.get("inner", []) if not is_noise(x)]
+    RETMAP[0] = {"-1": "false", "0": "true"}     # the model's function returns "succeeded"
+    try:
+        out.append("/-- `print_current_cmd_full_name` of src/cat.c; the Bool is \"returned 0\" -/\n"
+                   "def print_current_cmd_full_name (D : Desc) (s : St) (suffix : List Byte) : St × Bool :=\n  %s" % _cps(sts, "s", "    "))
+    finally:
+        RETMAP[0] = None
+    _, body = find_fn(ast, "print_cmd_list")
+    sts = [x for x in body.get("inner", []) if not is_noise(x)]
+    VOID_FN_MODE[0] = True
+    try:
+        out.append("/-- `print_cmd_list` of src/cat.c (the first line is the model's ghost check that the table cursor is inside the table) -/\n"
+                   "def print_cmd_list (D : Desc) (s : St) : St :=\n  let s : St := s.chkUb (s.index < D.commandsNum);\n  %s" % _cps(sts, "s", "    "))
+    finally:
+        VOID_FN_MODE[0] = False
+    return out
+
+
 def t9(ast):
     defs = []
     for name in STEPS:
@@ -2471,7 +2667,9 @@ def t9(ast):
     defs += t16(ast)
     defs += t17(ast)
     defs += t18(ast)
-    hdr = ("/-\n  GENERATED by tools/translate.py from small step functions of src/cat.c (T9 - T18). Do not edit.\n"
+    defs += t19(ast)
+    defs += t20(ast)
+    hdr = ("/-\n  GENERATED by tools/translate.py from small step functions of src/cat.c (T9 - T20). Do not edit.\n"
            "  `Proofs/Steps.lean` proves the model's functions equal to these.\n-/\n"
            "import CatVerif.Model.Fsm\nnamespace Cat.Gen\nopen Cat St\nset_option linter.unusedVariables false\n\n")
     return hdr + "\n\n".join(defs) + "\n\nend Cat.Gen\n"
